@@ -146,6 +146,16 @@ func (g *fgen) genClass() *FNode {
 			n.Items = append(n.Items, FItem{Kind: 0, Lo: '-'})
 		}
 	}
+	if g.pct(15) {
+		// a hyphen right after a range is a plain member as well: [_a-z-9]
+		for i, it := range n.Items {
+			if it.Kind == 1 {
+				rest := append([]FItem{{Kind: 0, Lo: '-'}}, n.Items[i+1:]...)
+				n.Items = append(n.Items[:i+1:i+1], rest...)
+				break
+			}
+		}
+	}
 	if g.o.EscDash && g.pct(10) && len(n.Items) >= 1 {
 		n.Items = append(n.Items, FItem{Kind: 0, Lo: '-'}, FItem{Kind: 0, Lo: 'k'})
 	}
@@ -463,7 +473,7 @@ func (p *fprinter) class(n *FNode) {
 	for i, it := range n.Items {
 		switch it.Kind {
 		case 0:
-			esc := it.Lo == '-' && i > 0 && i < len(n.Items)-1
+			esc := it.Lo == '-' && i > 0 && i < len(n.Items)-1 && n.Items[i-1].Kind != 1
 			if it.Lo == '^' && i == 0 && !n.Inv {
 				p.w(`\x5e`) // a leading ^ would invert
 			} else {
